@@ -20,6 +20,7 @@ RULE = ('configurations: primary (Ed25519 / ECDSA P-256 / RSA-1024) with 1-2 ide
         'configuration plus Hypothesis over configurations. Non-trivial: the acting component is a subkey, or nothing qualifies; distinct by (flag assignment, operation, '
         'form, enforcement).')
 RULE += ' A key-flags subpacket in the unhashed area must grant nothing. History worker: one key object through re-certifications, re-bindings, added and removed identities; each sign/certify(user=...) in between is judged against the flags then in force. Keys with the primary in the clear and every subkey locked (a locked subkey must never act); two-octet key flags whose second octet grants nothing.'
+RULE += ' Subkey packets without any binding signature grant nothing; form stub-primary (GnuPG stub primary, complete subkeys): a subkey that carries the flag must do the work; with enforcement off and nothing carrying the flag the addressed key must not be refused when its algorithm can do the work; an identity-less key may only certify its own first identity.'
 ASSUMPTIONS = ['which of several qualifying components is chosen is not asserted', 'any exception counts as a refusal', 'flags that the component\'s algorithm cannot perform '
                '(encrypt on EdDSA, sign on ECDH) are not generated', 'locked forms use a reference-made protected key with a low S2K count (fast to unlock)']
 
